@@ -242,6 +242,20 @@ CHECKS = {
         note='In-process fault simulation; fake requests.get; payload sizes 0 B .. 3 transfer blocks; the CIFAR '
              'SQLite conversion step is modelled out; TLC, JVM.',
         design='5/C19'),
+    'C20': dict(
+        technique='TLA+ spec Packaged.tla (Shakespeare tokeniser as a sequence function, CIFAR-100 standardisation in exact '
+                  'rational form, EMNIST domain rule) model-checked by TLC; emitted tables replayed into the real '
+                  'preprocessors; model/dataset id agreement, TensorFlow equivalence of the eval crop, training crops and '
+                  'row independence of packaged models as PureHistory facts judged by TLC',
+        text='TLC proves the tokeniser invariants (unpadded inputs = label stream, targets shifted by one, labels in '
+             'vocabulary, padding only at the end) for all snippet lists in the bounds, unit variance / 1/sqrt(N) floor / '
+             'zero for constant images, and the EMNIST ranges for all 10 000 writers; every table row is executed on '
+             'the real functions; the ids assumed by the Shakespeare and StackOverflow models must equal the ids their '
+             'datasets produce; eval preprocessing must equal tf.image.per_image_standardization of the centre crop '
+             'for crop sizes 1..32; each example\'s prediction and loss must not depend on the other rows.',
+        note='Datasets cannot be downloaded: synthetic inputs; StackOverflow with a small explicit vocabulary; row '
+             'independence is relational (tolerance classes).',
+        design='5/C20'),
 }
 
 NOT_YET = 'check not built yet in this round (planned, see DESIGN.md section 5)'
